@@ -48,6 +48,12 @@ impl<H: HashChain> HssPrivateKey<H> {
 
         let mut current_seed = private_key.generate_root_seed_and_lms_tree_identifier();
         let parameters = private_key.compressed_parameter.to::<H>()?;
+        if !private_key
+            .compressed_used_leafs_indexes
+            .is_valid_for(&parameters)
+        {
+            return Err(());
+        }
         let used_leafs_indexes = private_key.compressed_used_leafs_indexes.to(&parameters);
 
         let lms_private_key = LmsPrivateKey {
